@@ -141,7 +141,13 @@ def _chunk_worker(args):
     for idx in range(start, stop):
         rng = random.Random(mix(seed, plan.prop, idx))
         scn = plan.gen(rng, tier, idx)
-        run, viol = execute(plan, scn)
+        try:
+            with engine.deadline(engine.RUN_DEADLINE_S, engine.RunTimeout):
+                run, viol = execute(plan, scn)
+        except engine.RunTimeout:
+            # nothing can be claimed about this run; the batch goes on (counted in the evidence)
+            stats["runs_timed_out"] = stats.get("runs_timed_out", 0) + 1
+            continue
         _merge_stats(stats, run.stats)
         for kf in getattr(run, "known_findings", ()):      # attributed to a listed known finding
             known[kf] = known.get(kf, 0) + 1
@@ -333,6 +339,8 @@ def write_evidence(plan, tier, seed, agg, violations, extra=None):
         "pristine_reference_processes_forked": st.get("pristine_reference_processes", 0),
         "pristine_comparisons": st.get("pristine_compared", 0),
         "runs_aborted_after_runaway_op": st.get("runs_aborted_after_runaway_op", 0),
+        "runs_timed_out_nothing_claimed": st.get("runs_timed_out", 0),
+        "pristine_runs_incomplete": st.get("pristine_incomplete", 0),
         "walker_unavailable_degraded_comparisons": st.get("walker_unavailable", 0),
         "reach_warnings": reach_warnings(st),
     }
